@@ -330,6 +330,11 @@ fn table_checks(c: &Cfg, rec: &Value, world: &mut World) -> Vec<Check> {
                 best = best.min(dev);
             }
             out.push(chk("shape", best, c.tol, json!({"code_a": a, "code_f": f, "code_rf": if f != 0.0 { json!(1.0 / f) } else { json!("-") }, "published": seen})));
+            // "GRS80 is the default ellipsoid"
+            if c.name == "GRS80" {
+                let d = Ellipsoid::default();
+                out.push(chk("default_is_GRS80", rel(d.semimajor_axis(), a).max(rel(d.flattening(), f)), c.tol, json!({"default a": d.semimajor_axis(), "default f": d.flattening()})));
+            }
             // a proper ellipsoid inside the quantifier of the property
             let proper = a.is_finite() && a > 0.0 && f.is_finite() && (0.0..=1.0 / 150.0).contains(&f);
             out.push(chk("proper", if proper { 0.0 } else { f64::INFINITY }, c.tol, json!({"a": a, "f": f})));
@@ -371,14 +376,18 @@ fn shape_checks(c: &Cfg) -> Vec<Check> {
     let b = e.semiminor_axis();
     let es = e.eccentricity_squared();
     let eps = e.second_eccentricity_squared();
-    // `rel`: relative to the value; `one`: the identity is written in the axes, where a rounding error of b of the
-    // class (1e-11 b) moves a dimensionless parameter by 1e-11 absolutely; `len`: lengths, relative to a
-    let r = |what: &str, x: f64, y: f64| chk(what, rel(x, y), c.tol, json!({"library": x, "identity": y}));
-    let one = |what: &str, x: f64, y: f64| chk(what, (x - y).abs(), c.tol, json!({"library": x, "identity": y}));
+    // `r`: dimensionless parameters: relative to the value in the class, plus 1e-13 absolutely (a ratio of the axes, which a
+    // library may well use, carries the rounding of the axes: a few 1e-16 absolutely, whatever the size of the parameter);
+    // `len`: lengths, relative to a
+    let r = |what: &str, x: f64, y: f64| {
+        let scale = x.abs().max(y.abs());
+        chk(what, if x == y { 0.0 } else { (x - y).abs() / (scale + 1e-13 / c.tol) }, c.tol, json!({"library": x, "identity": y}))
+    };
+    let one = |what: &str, x: f64, y: f64| r(what, x, y);
     let len = |what: &str, x: f64, y: f64| chk(what, (x - y).abs() / a, c.tol, json!({"library": x, "identity": y}));
     match c.sub {
         "es" => vec![r("es", es, f * (2.0 - f)), r("es_2f-ff", es, 2.0 * f - f * f)],
-        "b" => vec![r("b", b, a * (1.0 - f))],
+        "b" => vec![len("b", b, a * (1.0 - f))],
         "n" => vec![r("n", e.third_flattening(), f / (2.0 - f))],
         "n_axes" => vec![one("n_axes", e.third_flattening(), (a - b) / (a + b))],
         "eps" => vec![r("eps", eps, es / (1.0 - es))],
@@ -387,14 +396,14 @@ fn shape_checks(c: &Cfg) -> Vec<Check> {
         "aspect" => vec![r("aspect", e.aspect_ratio(), 1.0 / (1.0 - f)), r("aspect_axes", e.aspect_ratio(), a / b)],
         "E" => vec![len("E", e.linear_eccentricity(), a * es.sqrt()), len("E_axes", e.linear_eccentricity(), ((a - b) * (a + b)).sqrt())],
         "e" => vec![r("e", e.eccentricity(), es.sqrt()), r("e2", e.second_eccentricity(), eps.sqrt())],
-        "c" => vec![r("c", e.polar_radius_of_curvature(), a * a / b), r("c_f", e.polar_radius_of_curvature(), a / (1.0 - f))],
-        "aliases" => vec![r("a()", e.a(), a), r("f()", e.f(), f), r("semimedian", e.semimedian_axis(), a)],
+        "c" => vec![len("c", e.polar_radius_of_curvature(), a * a / b), len("c_f", e.polar_radius_of_curvature(), a / (1.0 - f))],
+        "aliases" => vec![len("a()", e.a(), a), r("f()", e.f(), f), len("semimedian", e.semimedian_axis(), a)],
         "Qn" => {
             let quad = c.sh.meridian_arc(FRAC_PI_2, c.gl);
             vec![
-                r("rectifying_radius", e.rectifying_radius(), a * e.normalized_meridian_arc_unit()),
-                r("meridian_quadrant", e.meridian_quadrant(), FRAC_PI_2 * e.rectifying_radius()),
-                r("quadrant_integral", e.meridian_quadrant(), quad),
+                len("rectifying_radius", e.rectifying_radius(), a * e.normalized_meridian_arc_unit()),
+                len("meridian_quadrant", e.meridian_quadrant(), FRAC_PI_2 * e.rectifying_radius()),
+                len("quadrant_integral", e.meridian_quadrant(), quad),
             ]
         }
         _ => vec![bad("unknown", format!("unknown shape identity {}", c.sub))],
@@ -618,7 +627,8 @@ fn lat_checks(c: &Cfg, pts: &[[i64; 4]], world: &mut World) -> Vec<Vec<Check>> {
                 match (f, b) {
                     (Ok(p), Ok(q)) => {
                         for i in 0..pts.len() {
-                            out[i].push(chk(&tag("closed_form"), dev(p[i], refs[i]), c.tol, json!({"lat": phis[i], "f(lat)": show(&[p[i]]), "closed form": show(&[refs[i]])})));
+                            out[i].push(chk(&tag("closed_form"), dev(p[i], refs[i]), c.tol, json!({"lat": phis[i], "f(lat)": show(&[p[i]]), "closed form": show(&[refs[i]]),
+                                "f(lat) / closed form": if refs[i] != 0.0 { json!(p[i] / refs[i]) } else { json!("-") }})));
                             out[i].push(chk(&tag("closed_form_inverse"), (q[i] - phis[i]).abs(), if iso { 1e-12 } else { c.tol }, json!({"lat": phis[i], "closed form": show(&[refs[i]]), "inverse of it": show(&[q[i]])})));
                         }
                     }
@@ -675,7 +685,8 @@ fn curv_checks(c: &Cfg, pts: &[[i64; 4]], world: &mut World) -> Vec<Vec<Check>> 
     let lat_deg: Vec<f64> = pts.iter().map(|p| p[0] as f64 / 1000.0).collect();
     let data: Vec<Coor4D> = lat_deg.iter().map(|x| Coor4D::raw(*x, 12.0, 0.0, 0.0)).collect();
     let mut ops: BTreeMap<&str, Result<Vec<Coor4D>, String>> = BTreeMap::new();
-    for flag in ["prime", "meridian", "gaussian", "mean"] {
+    // the second element (12) is a longitude to four of them, and the azimuth in degrees to `azimuthal`
+    for flag in ["prime", "meridian", "gaussian", "mean", "azimuthal"] {
         ops.insert(flag, world.apply(&format!("curvature {} ellps={}", flag, c.name), true, &data));
     }
     let mut out = vec![];
@@ -697,7 +708,8 @@ fn curv_checks(c: &Cfg, pts: &[[i64; 4]], world: &mut World) -> Vec<Vec<Check>> 
                 let (mr, nr) = (sh.m_radius(phi), sh.n_radius(phi));
                 v.push(r("M@trait", m, mr));
                 v.push(r("N@trait", n, nr));
-                for (flag, want) in [("prime", nr), ("meridian", mr), ("gaussian", (mr * nr).sqrt()), ("mean", 2.0 / (1.0 / mr + 1.0 / nr))] {
+                for (flag, want) in [("prime", nr), ("meridian", mr), ("gaussian", (mr * nr).sqrt()), ("mean", 2.0 / (1.0 / mr + 1.0 / nr)),
+                                     ("azimuthal", 1.0 / (12f64.to_radians().cos().powi(2) / mr + 12f64.to_radians().sin().powi(2) / nr))] {
                     match &ops[flag] {
                         Ok(d) => v.push(r(&format!("{flag}@op"), d[i][0], want)),
                         Err(msg) => v.push(bad(if msg.starts_with("panic") { "panic@op" } else { "opfail@op" }, msg.clone())),
@@ -796,7 +808,10 @@ fn geod_checks(c: &Cfg, pts: &[[i64; 4]], world: &mut World) -> Vec<Vec<Check>> 
                     "sphere" => {
                         let (l2, b2, a2) = sphere_direct(l1, b1, az, sigma);
                         v.push(chk("direct_position", sh.ground([l2, b2, 0.], [d[0], d[1], 0.]), c.tol, json!({"great circle": show(&[l2, b2, a2]), "library": det.clone()})));
-                        v.push(chk("direct_azimuth", wrap_pi(d[2] - a2).abs() * lever, c.tol, json!({"great circle": show(&[l2, b2, a2]), "library": det.clone()})));
+                        // the azimuth at a destination that is a pole depends on the longitude given to the pole: not compared
+                        if b2.cos() > 1e-6 {
+                            v.push(chk("direct_azimuth", wrap_pi(d[2] - a2).abs() * lever, c.tol, json!({"great circle": show(&[l2, b2, a2]), "library": det.clone()})));
+                        }
                         let (g1, g2, gs) = sphere_inverse(l1, b1, d[0], d[1]);
                         v.push(chk("inverse_distance", (inv[2] - a * gs).abs(), c.tol, json!({"great circle": show(&[g1, g2, a * gs]), "library": det.clone()})));
                         v.push(chk("inverse_azimuth_1", wrap_pi(inv[0] - g1).abs() * lever, c.tol, json!({"great circle": show(&[g1, g2, a * gs]), "library": det.clone()})));
@@ -827,9 +842,17 @@ fn geod_checks(c: &Cfg, pts: &[[i64; 4]], world: &mut World) -> Vec<Vec<Check>> 
             }
             "meridian" => {
                 let (b1, b2, l) = (rad(p[0]), rad(p[1]), rad(p[2]));
-                let arc = (sh.meridian_arc(b2, c.gl) - sh.meridian_arc(b1, c.gl)).abs();
-                let heading = if b2 > b1 { 0.0 } else { PI };
-                let (from, to) = (Coor2D::raw(l, b1), Coor2D::raw(l, b2));
+                let across = p[3] == 1;
+                let (m1, m2) = (sh.meridian_arc(b1, c.gl), sh.meridian_arc(b2, c.gl));
+                // same meridian: the arc between the latitudes; opposite meridians: over the nearer pole
+                let (arc, heading, l2, lever) = if !across {
+                    ((m2 - m1).abs(), if b2 > b1 { 0.0 } else { PI }, l, a * (b2 - b1).sin().abs())
+                } else if b1 + b2 > 0.0 {
+                    (2.0 * sh.meridian_arc(FRAC_PI_2, c.gl) - m1 - m2, 0.0, l + PI, a * (b1 + b2).sin().abs())
+                } else {
+                    (2.0 * sh.meridian_arc(FRAC_PI_2, c.gl) + m1 + m2, PI, l + PI, a * (b1 + b2).sin().abs())
+                };
+                let (from, to) = (Coor2D::raw(l, b1), Coor2D::raw(l2, b2));
                 let r = guarded(|| (e.geodesic_inv(&from, &to), e.geodesic_fwd(&from, heading, arc)));
                 let (inv, d) = match r {
                     Ok(x) => x,
@@ -838,16 +861,16 @@ fn geod_checks(c: &Cfg, pts: &[[i64; 4]], world: &mut World) -> Vec<Vec<Check>> 
                         continue;
                     }
                 };
-                let det = json!({"lon": l, "lat1": b1, "lat2": b2, "meridian arc (integral)": arc, "inverse": show(&inv.0), "direct": show(&d.0)});
+                let det = json!({"lon1": l, "lat1": b1, "lon2": l2, "lat2": b2, "meridian arc (integral)": arc, "inverse": show(&inv.0), "direct": show(&d.0)});
+                let sfx = if across { "_over_pole" } else { "" };
                 if !conv(&inv) || !conv(&d) {
-                    out.push(vec![Check { what: "no_convergence".into(), value: f64::INFINITY, tol: 0.0, detail: det }]);
+                    out.push(vec![Check { what: format!("no_convergence{sfx}"), value: f64::INFINITY, tol: 0.0, detail: det }]);
                     continue;
                 }
-                let lever = a * (b2 - b1).sin().abs();
-                v.push(chk("distance", (inv[2] - arc).abs(), c.tol, det.clone()));
-                v.push(chk("azimuth", wrap_pi(inv[0] - heading).abs() * lever, c.tol, det.clone()));
+                v.push(chk(&format!("distance{sfx}"), (inv[2] - arc).abs(), c.tol, det.clone()));
+                v.push(chk(&format!("azimuth{sfx}"), wrap_pi(inv[0] - heading).abs() * lever, c.tol, det.clone()));
                 // the destination of the direct problem: at a pole every longitude is the same point
-                v.push(chk("direct", sh.ground([l, b2, 0.], [d[0], d[1], 0.]), c.tol, det));
+                v.push(chk(&format!("direct{sfx}"), sh.ground([l2, b2, 0.], [d[0], d[1], 0.]), c.tol, det));
             }
             _ => {
                 let (l1, l2) = (rad(p[0]), rad(p[1]));
@@ -885,6 +908,9 @@ struct Group {
     fails: usize,
     worst: f64,
     sample: Value,
+    // the worst case on GRS80, if the group has one: the reproduction a reader recognises
+    ref_worst: f64,
+    ref_sample: Value,
     ellps: BTreeSet<String>,
     lines: usize,
 }
@@ -894,6 +920,7 @@ struct Measure {
     n: usize,
     fails: usize,
     worst: f64,
+    ratio: f64,
     tol: f64,
     at: Value,
 }
@@ -939,8 +966,8 @@ fn eval(input: &str, output: &str, progress: Option<&String>) -> i32 {
         // the ellipsoid: by name, or as "a,rf"
         let ell = match guarded(|| Ellipsoid::named(&name)) {
             Ok(Ok(e)) => Ok(e),
-            Ok(Err(e)) => Err(("instantiate", format!("Ellipsoid::named({name:?}): {e:?}"))),
-            Err(p) => Err(("panic", format!("Ellipsoid::named({name:?}) panicked: {p}"))),
+            Ok(Err(e)) => Err(("named_error", format!("Ellipsoid::named({name:?}): {e:?}"))),
+            Err(p) => Err(("named_panic", format!("Ellipsoid::named({name:?}) panicked: {p}"))),
         };
         let results: Vec<Vec<Check>> = match ell {
             Err((what, msg)) => pts.iter().map(|_| vec![bad(what, msg.clone())]).collect(),
@@ -980,13 +1007,19 @@ fn eval(input: &str, output: &str, progress: Option<&String>) -> i32 {
             for ch in checks {
                 let m = measures.entry((id.clone(), ch.what.clone())).or_default();
                 m.n += 1;
-                m.tol = ch.tol;
+                if m.n == 1 {
+                    m.tol = ch.tol;
+                }
                 let ok = ch.value <= ch.tol;
                 if !ok {
                     m.fails += 1;
                 }
-                if ch.value.is_finite() && (ch.value > m.worst || m.at.is_null()) {
-                    m.worst = m.worst.max(ch.value);
+                // the worst case relative to what is allowed (tolerances scale with the axis)
+                let ratio = if ch.tol > 0.0 { ch.value / ch.tol } else { ch.value };
+                if ratio.is_finite() && (ratio > m.ratio || m.at.is_null()) {
+                    m.ratio = m.ratio.max(ratio);
+                    m.worst = ch.value;
+                    m.tol = ch.tol;
                     m.at = json!({"ellps": name, "pt": p});
                 }
                 if !ok && failed.is_none() {
@@ -1011,6 +1044,12 @@ fn eval(input: &str, output: &str, progress: Option<&String>) -> i32 {
                 if ch.value.is_finite() {
                     gr.worst = gr.worst.max(ch.value);
                 }
+                if name == "GRS80" && (gr.ref_sample.is_null() || (ch.value.is_finite() && ch.value > gr.ref_worst)) {
+                    gr.ref_sample = row.clone();
+                    if ch.value.is_finite() {
+                        gr.ref_worst = ch.value;
+                    }
+                }
                 if gr.lines < 20 {
                     gr.lines += 1;
                     writeln!(w, "{}", row).unwrap();
@@ -1026,10 +1065,10 @@ fn eval(input: &str, output: &str, progress: Option<&String>) -> i32 {
     }
     for ((id, ecls, what), gr) in groups.iter() {
         writeln!(w, "{}", json!({"group": true, "id": id, "ecls": ecls, "what": what, "failing": gr.fails, "worst": gr.worst,
-            "ellps": gr.ellps.iter().take(60).collect::<Vec<_>>(), "sample": gr.sample})).unwrap();
+            "ellps": gr.ellps.iter().take(60).collect::<Vec<_>>(), "sample": gr.sample, "ref_sample": gr.ref_sample})).unwrap();
     }
     for ((id, what), m) in measures.iter() {
-        writeln!(w, "{}", json!({"measure": true, "id": id, "what": what, "n": m.n, "fails": m.fails, "worst": m.worst, "tol": m.tol, "at": m.at})).unwrap();
+        writeln!(w, "{}", json!({"measure": true, "id": id, "what": what, "n": m.n, "fails": m.fails, "worst": m.worst, "tol": m.tol, "ratio": m.ratio, "at": m.at})).unwrap();
     }
     let code_names: Vec<&str> = geodesy::verif::ellipsoid_names();
     let uncovered: Vec<&str> = code_names.iter().copied().filter(|n| !spec_names.contains(*n)).collect();
